@@ -8,3 +8,6 @@ CLAIMS['C14'] = dict(
 NA['C17'] = "containment is decided by kernel path resolution over a file system the extraction itself mutates; no function contract ranges over that state (DESIGN.md §6)"
 NA['C18'] = "the round trip is carried by go-unixfsnode's builder/reifier (dependencies) and by directory trees on disk; nothing in reach of a contract on go-car code (DESIGN.md §6)"
 NA['C19'] = "quantifies over CLI processes (flag parsing, files, exit status, closure of one process's output under another); no function contract ranges over that (DESIGN.md §6)"
+CLAIMS['C03'] = dict(
+ text="Proof of the offset bookkeeping of index generation for every input: each record carries the payload-relative offset of its section's length prefix and the CID read there, identity CIDs are recorded iff StoreIdentityCIDs, over-long CIDs are rejected; the offset-tracking wrapper used for plain readers keeps 'tracked offset == stream position' (object invariant proved for its methods and required at every use), so plain and seekable sources yield the same offsets.",
+ note="Assumed: go-varint, go-cid, io.Seeker/Reader contracts, cbor canonical_header. Bucket search (sort.Search + forward scan) and GoLLRB are assumed/untreated here; the source is at its origin when indexing starts.")
